@@ -32,6 +32,21 @@ def hex (bs : List UInt8) : String :=
   if bs.isEmpty then "-" else
   String.ofList (bs.flatMap fun b => [hexDigit (b.toNat / 16), hexDigit (b.toNat % 16)])
 
+/-- Run-length aware encoding, the inverse of `decBytes` (same rule as the harness: runs ≥ 12). -/
+partial def encPieces (bs : List UInt8) (lit : List UInt8) (acc : List String) : List String :=
+  match bs with
+  | [] => (if lit.isEmpty then acc else ("h" ++ hex lit.reverse) :: acc).reverse
+  | b :: _ =>
+    let run := bs.takeWhile (· == b)
+    let n := run.length
+    if n ≥ 12 then
+      let acc := if lit.isEmpty then acc else ("h" ++ hex lit.reverse) :: acc
+      encPieces (bs.drop n) [] (("r" ++ toString n ++ "x" ++ hex [b]) :: acc)
+    else encPieces (bs.drop n) (run.reverse ++ lit) acc
+
+def encBytes (bs : List UInt8) : String :=
+  if bs.isEmpty then "-" else "+".intercalate (encPieces bs [] [])
+
 /-- Splits a token list at a marker token. -/
 def splitAt (marker : String) (ts : List String) : List String × List String :=
   (ts.takeWhile (· != marker), (ts.dropWhile (· != marker)).drop 1)
